@@ -490,12 +490,19 @@ def _differential(rep, binary, cases, sdir, tag, canon=None, oracle=None, clause
                 f.update(abort_fields(c, i))
             rep.violation(f, "implementation aborted on case `%s`: %s" % (c[:200], i), dict(case=c, impl=i, model=m))
             continue
-        om = oracle(c, i) if oracle else None
+        try:
+            om = oracle(c, i) if oracle else None
+        except Exception as e:        # output the oracle cannot read is a finding about the implementation's output, never a crash of the check
+            om = "the implementation's output is not of the expected form (%s: %s): %s" % (type(e).__name__, e, i[:160])
         if om:
             rep.violation(dict(kind="oracle", clause=cl, has_input=True),
                           "oracle clause %s fails on `%s`: %s" % (cl, c[:200], om[:300]), dict(case=c, impl=i, model=m, oracle=om))
             continue
-        if canon(c, i) != canon(c, m):
+        try:
+            same = canon(c, i) == canon(c, m)
+        except Exception:
+            same = (i == m)
+        if not same:
             rep.violation(dict(kind="correspondence", clause=cl, has_input=True),
                           "model and implementation differ on `%s`: impl=%s model=%s" % (c[:200], i[:200], m[:200]),
                           dict(case=c, impl=i, model=m))
